@@ -24,7 +24,7 @@ import vbuild  # noqa: E402
 
 ENV = dict(os.environ)
 ENV["ASAN_OPTIONS"] = ("detect_leaks=0:abort_on_error=0:detect_stack_use_after_return=0:allocator_may_return_null=1:symbolize=1:"
-                       "malloc_context_size=12:use_sigaltstack=0:quarantine_size_mb=8:thread_local_quarantine_size_kb=64")
+                       "malloc_context_size=12:handle_abort=1:use_sigaltstack=0:quarantine_size_mb=8:thread_local_quarantine_size_kb=64")
 ENV["TSAN_OPTIONS"] = "halt_on_error=1:report_signal_unsafe=0:exitcode=66"
 ENV["UBSAN_OPTIONS"] = "halt_on_error=1"
 
